@@ -8,6 +8,7 @@ import (
 	"os"
 	"os/exec"
 	"path/filepath"
+	"runtime"
 	"strings"
 
 	"github.com/cosmos72/gomacro/fast"
@@ -118,11 +119,15 @@ func ReplayChild(rec *vlib.Rec, cfg gobatch.Config) {
 				verdict = fmt.Sprintf("error panic: %v", p)
 			}
 		}()
-		if e := gobatch.ReplayerWith(cfg)(data); e != nil {
-			if _, inc := e.(vlib.InconclusiveError); inc {
-				verdict = "inconclusive " + e.Error()
-			} else {
-				verdict = "error " + strings.ReplaceAll(e.Error(), "\n", "\\n")
+		// schedule-dependent failures need parallelism and may need several attempts
+		runtime.GOMAXPROCS(8)
+		for attempt := 0; attempt < 5 && verdict == "ok"; attempt++ {
+			if e := gobatch.ReplayerWith(cfg)(data); e != nil {
+				if _, inc := e.(vlib.InconclusiveError); inc {
+					verdict = "inconclusive " + e.Error()
+				} else {
+					verdict = "error " + strings.ReplaceAll(e.Error(), "\n", "\\n")
+				}
 			}
 		}
 	}()
